@@ -113,7 +113,21 @@ func (fs *FS) OpenReader(dir string, name string) (types.ReadableFile, error) {
 // about the well-formedness of the file, it may be empty, the wrong size or
 // corrupt in arbitrary ways.
 func (fs *FS) OpenWriter(dir string, name string) (types.WritableFile, error) {
-	return os.OpenFile(filepath.Join(dir, name), os.O_RDWR, os.FileMode(0644))
+	f, err := os.OpenFile(filepath.Join(dir, name), os.O_RDWR, os.FileMode(0644))
+	if err != nil {
+		return nil, err
+	}
+	// The file may have been created by an earlier process that exited (or was
+	// killed) before anything was committed to it, in which case its directory
+	// entry has never been fsynced. We can't tell, so treat it like a new file
+	// and fsync the parent dir along with the first Sync. That is one extra
+	// fsync per process lifetime.
+	fi := &File{
+		new:  0,
+		dir:  dir,
+		File: *f,
+	}
+	return fi, nil
 }
 
 func syncDir(dir string) error {
